@@ -850,6 +850,19 @@ func (Prop) RunUnit(env *kernel.Env, unit int) {
 					out.Inc("systematic_runs")
 				}
 			}
+			// cold process: lazily initialised process-wide state (caches, memos) is only cold for the
+			// first case of a process, so the directed programs (all pool programs in the thorough tier)
+			// are also run once each in a process of their own, workers first, solo baseline after
+			if idx < len(directed) || env.Tier == "thorough" {
+				d := systematicCase(env.Seed, idx, tr, 1) // burst: all workers released together
+				c := kernel.NewCase(ID, d.Policy, d)
+				out.Mark(c)
+				if v := kernel.ExecFresh(Prop{}, c); v != nil {
+					out.Violate(v)
+				}
+				out.Inc("cold_process_runs")
+				out.Inc("evaluations")
+			}
 		}
 		return
 	}
